@@ -22,6 +22,12 @@ func init() {
 			defer func() { r.ruleAlias = "" }()
 			c05CloseOrder(r)
 		}})
+	registry["C13"].Rules = append(registry["C13"].Rules,
+		Rule{Name: "C13-R6-parsed-values-stored-exactly", Doc: "the SML parser builds numeric items through the secs2 constructors: every value they store is the supplied value itself or the result of the clamp functions (which pass NaN, ±Inf and in-range values through unchanged), never an ad-hoc min/max or a bulk copy — so a value the strict encoder rendered comes back as the same element (shared with C16-R2)", Run: func(r *Run) {
+			r.ruleAlias = "C13-R6-parsed-values-stored-exactly"
+			defer func() { r.ruleAlias = "" }()
+			c16StoredValues(r)
+		}})
 	registry["C01"].Rules = append(registry["C01"].Rules,
 		Rule{Name: "C01-R10-elements-fit-width", Doc: "every element stored in a numeric item fits the item's element width (it is a clamp result, a bound, or a widening that fits the narrowest width the path can be building), so the truncating big-endian encoders write the element's own value and decoding gives it back (shared with C16-R2)", Run: func(r *Run) {
 			r.ruleAlias = "C01-R10-elements-fit-width"
